@@ -128,7 +128,9 @@ class RegularizedEvolution(Search):
 
                 parent_sample = max(samples, key=lambda x: x[1])[0]
 
-                active_hyperparameter_names = list(
+                # sorted: ConfigSpace returns a set of names, whose iteration order changes with
+                # the hash seed of the process (the choice below must not depend on it)
+                active_hyperparameter_names = sorted(
                     space.get_active_hyperparameters(
                         deactivate_inactive_hyperparameters(parent_sample.copy(), space)
                     )
